@@ -34,12 +34,14 @@ def tasks(tier):
     t = [('hr', b) for b in ('L', 'mol', 'g', 'U')]
     t += [('std', k) for k in ('solid', 'liquid', 'enzyme', 'container')]
     t += [('line', 'init', k, u) for k, u in ((1, 'g'), (1, 'mmol'), (2, 'mL'), (2, 'g'), (3, 'U'), (3, 'mg'))]
+    t += [('line', 'init-repeat', k, u) for k, u in ((2, 'mL'), (1, 'mg'), (3, 'U'))]
     t += [('line', 'transfer', k, u) for k in ('liquid', 'solid', 'mixed') for u in ('mL', 'mg', 'mmol')]
     t += [('line', 'transfer', k, u) for k in ('solid+enzyme', 'enzyme') for u in ('mg', 'U')]     # liquid-free sources holding an enzyme
     t += [('line', 'fill_to', 2, u) for u in ('mL', 'g', 'mol')]
     t += [('line', 'dilute', 1, 'mol/L'), ('line', 'dilute', 2, 'g/g')]
     t += [('line', 'create_from', 1, 'mL'), ('line', 'create_from', 1, 'g')]
     t += [('bake_line', 'fill_to'), ('bake_line', 'dilute')]
+    t.append(('bounded_step_text', 6 if tier != 'thorough' else 40))
     # every well keeps its own preparation text through plate operations (text provenance; contracts/plate_ops.py)
     from contracts import plate_ops as PO
     t += [('plate_text',) + c for c in PO.transfer_cases(tier)]
@@ -56,6 +58,25 @@ def run(kind_, *args):
 def run_unit_contract(*args):
     from contracts import propsets
     return propsets.run_unit_contract(PID, *args)
+
+
+def run_bounded_step_text(n):
+    """bounded stand-in (the per-well wording of a plate fill_to step goes through `collapse`, out of the engine's reach):
+    native recipes, every stated amount against the amount the well really received"""
+    from pyvc import harness
+    code = ("from contracts.bake_oracle import plate_fill_text\ndef run():\n    return plate_fill_text(%d)\n" % n)
+    out = harness.run_replay({'inputs': {'n': n}, 'code': code}, timeout=600)
+    name = f'{PID}/bounded[plate-fill-step-text]'
+    bound = f'{n} x 3 recipes with a whole-plate fill_to on a 2x2 plate with unequal wells'
+    if out.get('ok') is None:
+        return [{'name': name, 'case': f'n<={n}', 'kind': 'bounded', 'verdict': 'unknown', 'note': str(out.get('error'))[-300:],
+                 'count': 0, 'bound': bound, 'secs': 0.0}]
+    res = [{'name': name, 'case': f'n<={n}', 'kind': 'bounded', 'verdict': 'proved', 'count': out.get('count', 0), 'bound': bound, 'secs': 0.0}]
+    if out.get('ok') is False:
+        res.append({'name': name, 'case': 'stated-amount', 'kind': 'bounded', 'verdict': 'refuted', 'count': len(out.get('failures', [])),
+                    'bound': bound, 'secs': 0.0, 'note': '; '.join(out.get('failures', [])[:2])[:500],
+                    'replays': [{'inputs': {'n': n}, 'code': code}]})
+    return res
 
 
 def run_plate_text(*case):
@@ -243,6 +264,32 @@ def run_line(op, k, unit):
     def body(I):
         clib.assume_world(I)
         ms, vs = spec.num(clib.ms_of(I)), spec.num(clib.vs_of(I))
+        if op == 'init-repeat':
+            # the same substance listed twice (and another one in between): every item of the line states ITS portion
+            s, t = z3.Const('s', Sub), z3.Const('t', Sub)
+            I.assume(s != t)
+            I.assume(z3.And(kind(s) == k, kind(t) == 1))
+            v1, v2, v3 = z3.Real('v1'), z3.Real('v2'), z3.Real('v3')
+            I.assume(z3.And(v1 > 0, v2 > 0, v3 > 0))
+            o = I.new_obj('Container')
+            out = vc.call(I, 'Container.__init__', [o, NameV(z3.Const('nm', Name)), 'inf L',
+                                                    [(SubV(s), SegStr([NumHole(v1), ' ', unit])), (SubV(t), SegStr([NumHole(v2), ' ', 'mg'])),
+                                                     (SubV(s), SegStr([NumHole(v3), ' ', unit]))]])
+            if out.kind != 'return':
+                return out
+            S = spec.SubSpec(k, mw(s), dens(s), sa(s))
+            base = {1: 'g', 2: 'L', 3: 'U'}[k]
+            nums = numbers_in(o.fields['instructions'])
+            # the line names each substance once, with the TOTAL of it that went into the container
+            if len(nums) != 2:
+                I.oblige('ensures[line/items]', False, 'property',
+                         note=f"{len(nums)} amounts for two substances in {o.fields['instructions']!r:.160} (the stated amounts do not add up to the contents)")
+                return out
+            I.oblige('ensures[line/items]', True, 'property')
+            total = spec.convert_spec(S, v1, unit, base) + spec.convert_spec(S, v3, unit, base)
+            check_number(I, 'ensures[line/repeated]', nums[0], total, base,
+                         'a substance listed twice: the line states the total of it that was added')
+            return out
         if op == 'init':
             s = z3.Const('s', Sub)
             I.assume(kind(s) == k)
